@@ -35,7 +35,7 @@ VARIABLES
   disk,     \* set of secs saved in the agent's disk cache
   rpc,      \* sec -> "idle" or [rep, hist, spare]: the agent's RPC in flight for that second
   sentTo,   \* sec -> set of replica keys a request for that second was ever sent to
-  marked,   \* secs whose bucket carries a marker row (so its rows are recognisable in insert bodies)
+  marked,   \* sec -> ids of the marker rows its bucket carries (how its rows are recognised in insert bodies)
   acked,    \* secs for which the agent received discard = true
   forgot,   \* sec -> reason the agent dropped its last copy
   up,       \* inst -> BOOLEAN
@@ -43,7 +43,7 @@ VARIABLES
   polls,    \* inst -> [<<queue, bucket>> -> set of secs whose long poll waits there]
   conv,     \* inst -> set of <<queue, bucket>> recent buckets handed to inserters, not yet taken
   batch,    \* inst -> [inserter id -> its current batch: [b, rows, polls, st, body]]
-  storedBy, \* inst -> secs whose rows were in a successful insert of that instance
+  storedBy, \* inst -> ids of the marker rows that were in successful inserts of that instance
   replied,  \* set of [sec, inst, discard, why] replies the aggregators issued, not yet seen by agent
   rejected, \* sec -> set of reasons it was deliberately rejected with discard
   faults
@@ -53,7 +53,11 @@ vars == <<now, ag, disk, rpc, sentTo, marked, acked, forgot, up, rows, polls, co
 Idle == [rep |-> 0, hist |-> FALSE, spare |-> FALSE]
 Upd(f, k, v) == [x \in DOMAIN f \cup {k} |-> IF x = k THEN v ELSE f[x]]
 Get(f, k) == IF k \in DOMAIN f THEN f[k] ELSE {}
-Stored == UNION {storedBy[i] : i \in Insts}
+StoredIds == UNION {storedBy[i] : i \in Insts}
+\* a second counts as stored when all its marker rows were in successful inserts (a second
+\* without marker rows is unconstrained)
+Stored == {s \in Secs : marked[s] \subseteq StoredIds}
+RowIds(S) == UNION {marked[s] : s \in S}
 
 (* the agent forgets for good only for these reasons; the first two need an acknowledgement *)
 AckReasons == {"ack-recent", "ack-historic"}
@@ -66,7 +70,7 @@ Init == /\ now = 0
         /\ disk = {}
         /\ rpc = [s \in Secs |-> Idle]
         /\ sentTo = [s \in Secs |-> {}]
-        /\ marked = {}
+        /\ marked = [s \in Secs |-> {}]
         /\ acked = {}
         /\ forgot = <<>>
         /\ up = [i \in Insts |-> TRUE]
@@ -89,10 +93,10 @@ ToSendersCore(s, path) ==
     /\ ag' = [ag EXCEPT ![s] = IF path = "chan" THEN "recent" ELSE "moving"]
     /\ UNCHANGED <<now, disk, rpc, sentTo, marked, acked, forgot, up, rows, polls, conv, batch, storedBy, replied, rejected, faults>>
 
-\* the second's bucket got its marker row (harness: beforeFlushBucketFunc), before it is flushed
-MarkCore(s) ==
+\* preProcess: the second's bucket is complete and carries the marker rows `ids` (hook APrep)
+MarkCore(s, ids) ==
     /\ ag[s] = "none"
-    /\ marked' = marked \cup {s}
+    /\ marked' = [marked EXCEPT ![s] = ids]
     /\ UNCHANGED <<now, ag, disk, rpc, sentTo, acked, forgot, up, rows, polls, conv, batch, storedBy, replied, rejected, faults>>
 
 \* diskCachePutWithLog succeeded
@@ -204,7 +208,7 @@ InsertBeginCore(i, id, B) ==
 \* THE PROPERTY, end-to-end half: the body must contain every second merged into the batch.
 StoredCore(i, id, S) ==
     /\ id \in DOMAIN batch[i] /\ batch[i][id].st = "sending"
-    /\ (batch[i][id].rows \cap marked) \subseteq S
+    /\ RowIds(batch[i][id].rows) \subseteq S
     /\ batch' = [batch EXCEPT ![i][id].st = "stored", ![i][id].body = S]
     /\ storedBy' = [storedBy EXCEPT ![i] = @ \cup S]
     /\ UNCHANGED <<now, ag, disk, rpc, sentTo, marked, acked, forgot, up, rows, polls, conv, replied, rejected, faults>>
@@ -224,7 +228,7 @@ ReplyCore(i, s, discard, kind) ==
                               /\ s \in x.polls
                               /\ x.st \in {"ok", "failed"}
                               /\ discard <=> (x.st = "ok")
-                              /\ (discard /\ s \in marked) => s \in x.body
+                              /\ discard => marked[s] \subseteq x.body
     /\ kind = "stale" => discard
     /\ kind = "conveyor-full" => ~discard
     /\ kind \in {"insert", "stale", "conveyor-full"}
@@ -255,18 +259,17 @@ TypeOK == /\ \A s \in Secs : ag[s] \in {"none", "recent", "moving", "histq", "po
 ForgetOnlyAfterAck == \A s \in DOMAIN forgot : forgot[s] \in AckReasons => s \in acked
 
 \* an aggregator acknowledges only after a successful insert containing the rows, or a deliberate rejection
-AckOnlyAfterInsertOrReject == \A s \in acked \cap marked : s \in Stored \/ s \in DOMAIN rejected
+AckOnlyAfterInsertOrReject == \A s \in acked : s \in Stored \/ s \in DOMAIN rejected
 
 \* until forgotten, a produced second is held somewhere by the agent (memory or disk)
 Held == \A s \in Secs : ag[s] \notin {"none", "gone"} => (ag[s] \in {"recent", "moving", "histq", "popped"})
 
 \* nothing that was forgotten with an ack reason is missing from storage unless deliberately rejected
-NoSilentLoss == \A s \in DOMAIN forgot : (forgot[s] \in AckReasons /\ s \in marked) => (s \in Stored \/ s \in DOMAIN rejected)
+NoSilentLoss == \A s \in DOMAIN forgot : forgot[s] \in AckReasons => (s \in Stored \/ s \in DOMAIN rejected)
 
 \* final condition used by the trace spec at quiescence: every produced second was inserted,
 \* deliberately dropped by the agent for a listed reason, or deliberately rejected
 Settled(s) == \/ ag[s] = "none"
-              \/ s \notin marked
               \/ s \in Stored
               \/ (s \in DOMAIN forgot /\ forgot[s] \in DropReasons)
               \/ s \in DOMAIN rejected
